@@ -72,7 +72,8 @@ ASSUME = [
     "elapsed time is simulated by shifting the recorded instants of aggregation entries inside the package; a scenario "
     "runs in < 1 s of real time so every wall-clock comparison is `elapsed >= T` (scenarios that took longer are discarded)",
     "exhaustive TLC run uses scaled constants (3-4 keys, 2 digests, bounded byzantine/inbound/set-update budgets)",
-    "no Discord notifier is configured (it can only be constructed online), so the miss-notification branch of handleCleanup is not exercised",
+    "the Discord notifier is a stand-in built by reflection (no channels, a group id for every guardian name): the miss-notification branch of "
+    "handleCleanup and the goroutine it starts run in every history, but nothing is sent and the Discord API client is never reached",
 ]
 
 
